@@ -10,6 +10,7 @@ from __future__ import annotations
 
 import json
 import os
+import re
 import subprocess
 import sys
 
@@ -177,6 +178,32 @@ def equal_text_subqueries(sql):
             body = low[i:j + 1].replace(" ", "")
             seen[body] = seen.get(body, 0) + 1
     return any(v >= 2 for v in seen.values())
+
+
+_NOT_ALIAS = {"on", "join", "where", "union", "and", "or", "left", "right", "cross", "inner", "full", "group", "order", "having", "limit", "using",
+              "then", "else", "end", "when", "from", "select", "except", "intersect", "is", "in", "not", "between", "like", "natural", "window"}
+
+
+def equal_text_subqueries_named_differently(sql):
+    """narrower trigger: some parenthesised SELECT text occurs under two different names (two aliases, or an alias and none): the
+    collapsed node is then named after whichever occurrence the hash order puts first"""
+    low = " ".join(sql.lower().split())
+    seen = {}
+    for i, ch in enumerate(low):
+        if ch == "(" and low[i + 1:].lstrip().startswith("select"):
+            depth, j = 0, i
+            while j < len(low):
+                if low[j] == "(":
+                    depth += 1
+                elif low[j] == ")":
+                    depth -= 1
+                    if depth == 0:
+                        break
+                j += 1
+            m = re.match(r"\s*(?:as\s+)?([a-z_][a-z0-9_]*)", low[j + 1:])
+            alias = m.group(1) if m and m.group(1) not in _NOT_ALIAS else None
+            seen.setdefault(low[i:j + 1].replace(" ", ""), set()).add(alias)
+    return any(len(v) >= 2 for v in seen.values())
 
 
 def only_compound_parent_naming(detail):
